@@ -91,6 +91,11 @@ def run_pelt(
     # Evolving set of admissible segment starts.
     cost_eval_starts = np.array(([0]), dtype=np.int64)
 
+    # A start that fails the pruning test at the end `t` may still be optimal for the
+    # ends t + 1, ..., t + min_segment_shift, since the dominating segmentation needs
+    # a segment of at least 'min_segment_length' after `t`. Removal is delayed accordingly.
+    pending_prunes = []
+
     observation_indices = np.arange(2 * min_segment_length - 1, num_obs).reshape(-1, 1)
     for current_obs_ind in observation_indices:
         latest_start = current_obs_ind - min_segment_shift
@@ -109,9 +114,12 @@ def run_pelt(
         prev_cpts[current_obs_ind] = cost_eval_starts[argmin_candidate_cost]
 
         # Trimming the admissible starts set: (reuse the array of optimal costs)
-        cost_eval_starts = cost_eval_starts[
-            candidate_opt_costs + split_cost <= opt_cost[current_obs_ind + 1] + penalty
-        ]
+        keep = candidate_opt_costs + split_cost <= opt_cost[current_obs_ind + 1] + penalty
+        pending_prunes.append(cost_eval_starts[~keep])
+        if len(pending_prunes) > min_segment_shift:
+            cost_eval_starts = cost_eval_starts[
+                ~np.isin(cost_eval_starts, pending_prunes.pop(0))
+            ]
 
     return opt_cost[1:], get_changepoints(prev_cpts)
 
